@@ -51,6 +51,17 @@ pub fn check_string(v: &str, obs: &mut Obs) -> Result<(), Fail> {
         Ok(e) => e,
         Err(p) => fail!(panic_sig(&p), "ldap_escape panicked on {:?}: {}", v, p),
     };
+    // the functions take anything that converts into a Cow<str>: an owned String must be escaped like a &str
+    for (form, got) in [
+        ("String", guard(|| ldap3::ldap_escape(v.to_string()).into_owned())),
+        ("Cow::Owned", guard(|| ldap3::ldap_escape(std::borrow::Cow::<str>::Owned(v.to_string())).into_owned())),
+        ("Cow::Borrowed", guard(|| ldap3::ldap_escape(std::borrow::Cow::Borrowed(v)).into_owned())),
+    ] {
+        match got {
+            Ok(g) => ensure!(g == esc, "c09:filter-escape-argument-form", "ldap_escape({:?}) gives {:?} for a &str but {:?} for a {}", v, esc, g, form),
+            Err(p) => fail!(panic_sig(&p), "ldap_escape panicked on {:?} passed as {}: {}", v, form, p),
+        }
+    }
     let vb = v.as_bytes().to_vec();
     let a = b"a".to_vec();
     let mut templates: Vec<(String, Filter)> = vec![
@@ -96,6 +107,12 @@ pub fn check_string(v: &str, obs: &mut Obs) -> Result<(), Fail> {
         Ok(e) => e,
         Err(p) => fail!(panic_sig(&p), "dn_escape panicked on {:?}: {}", v, p),
     };
+    for (form, got) in [("String", guard(|| ldap3::dn_escape(v.to_string()).into_owned())), ("Cow::Owned", guard(|| ldap3::dn_escape(std::borrow::Cow::<str>::Owned(v.to_string())).into_owned()))] {
+        match got {
+            Ok(g) => ensure!(g == desc, "c09:dn-escape-argument-form", "dn_escape({:?}) gives {:?} for a &str but {:?} for a {}", v, desc, g, form),
+            Err(p) => fail!(panic_sig(&p), "dn_escape panicked on {:?} passed as {}: {}", v, form, p),
+        }
+    }
     let shapes: Vec<(String, Vec<Vec<(&str, Option<usize>)>>)> = vec![
         (format!("cn={}", desc), vec![vec![("cn", Some(0))]]),
         (format!("cn={},dc=example,dc=org", desc), vec![vec![("cn", Some(0))], vec![("dc", None)], vec![("dc", None)]]),
@@ -195,7 +212,7 @@ pub fn property() -> Property {
     Property {
         id: "C09",
         level: "exploration",
-        rule: "lanes: strings (Unicode strings of 0-24 chars over a biased alphabet: all ASCII incl. NUL, filter/DN metacharacters, space, '#', multi-byte scalars); short-ascii (EXHAUSTIVE: every ASCII string of length <=2, thorough <=3). Oracle per string v: 12 filter templates with ldap_escape(v) read by an independent strict RFC 4515 reader and by parse_filter+harness BER decoder must have the template's structure and value bytes == v; ldap_unescape(ldap_escape(v))==v; 5 DN templates with dn_escape(v) read by a strict RFC 4514 reader must keep the RDN structure and give value == v; strings needing no escaping come back unchanged. Non-trivial: v contains >=1 character that must be escaped (filter or DN, incl. leading space/'#', trailing space). Distinct = the string.",
+        rule: "lanes: strings (Unicode strings of 0-24 chars over a biased alphabet: all ASCII incl. NUL, filter/DN metacharacters, space, '#', multi-byte scalars); short-ascii (EXHAUSTIVE: every ASCII string of length <=2, thorough <=3). Oracle per string v: 12 filter templates with ldap_escape(v) read by an independent strict RFC 4515 reader and by parse_filter+harness BER decoder must have the template's structure and value bytes == v; ldap_unescape(ldap_escape(v))==v; 5 DN templates with dn_escape(v) read by a strict RFC 4514 reader must keep the RDN structure and give value == v; strings needing no escaping come back unchanged; owned String / Cow arguments are escaped exactly like a &str. Non-trivial: v contains >=1 character that must be escaped (filter or DN, incl. leading space/'#', trailing space). Distinct = the string.",
         assumptions: &["strict RFC 4514 reader (src/dn.rs) and strict RFC 4515 reader (src/filter.rs), both unit-tested on the RFC examples", "'=' escaped by dn_escape although RFC 4514 allows it raw is accepted (round trip still holds)"],
         lanes: vec![
             Box::new(PLane { name: "strings", cases: |t| t.pick(4_000, 100_000), strat: str_strat, check: check_case }),
